@@ -243,6 +243,22 @@ def worker(sh):
                         buf = data[:off] + bad + data[off + n:]
                         stage2.append('unm %s %d 1 %s' % (kind, c, buf.hex()))
                         meta2.append((kind, c, how, tag, off, ident))
+                # an element slot holding the identity: the exact identity encoding is a valid element (accepted), the same bytes with the
+                # sort bit set, with a payload bit set, or with the other form's flag are not
+                tag, off, n = rng.choice(pts)
+                idb = bytearray(n)
+                idb[0] = 0x40 | (0x80 if c else 0)
+                variants = [('identity-element', bytes(idb), 1)]
+                v = bytearray(idb); v[0] |= 0x20
+                variants.append(('identity+sort-bit', bytes(v), 0))
+                v = bytearray(idb); v[rng.randrange(1, n)] |= 1 << rng.randrange(8)
+                variants.append(('identity+payload-bit', bytes(v), 0))
+                v = bytearray(idb); v[0] ^= 0x80
+                variants.append(('identity+other-form', bytes(v), 0))
+                for how, el, okexp in variants:
+                    buf = data[:off] + el + data[off + n:]
+                    stage2.append('unm %s %d 1 %s' % (kind, c, buf.hex()))
+                    meta2.append((kind, c, how if not okexp else 'valid:' + how, tag, off, ident))
     for cfg in ('prod', 'san'):
         outs2 = sh.run(cfg, stage2)
         if cfg == 'san':
@@ -251,6 +267,11 @@ def worker(sh):
             if out is None:
                 continue
             kv = {t.split('=')[0]: t.split('=')[1] for t in out if '=' in t}
+            if how.startswith('valid:'):
+                if kv.get('accepted') != '1':
+                    sh.violation('valid-rejected:%s:%s' % (kind, how[6:]), 'validating unmarshal rejected a buffer whose G%s element at offset %d is the identity encoding [%s]' % (tag, off, ident), {'line': line[:2000]})
+                sh.event('corrupt:%s' % kind, '%s/%s' % (how, 'c' if c else 'u'))
+                continue
             if kv.get('accepted') == '1':
                 sh.violation('corruption-accepted:%s:%s' % (kind, how), 'validating unmarshal accepted a buffer whose embedded G%s element at offset %d is invalid (%s) [%s]' % (tag, off, how, ident),
                              {'line': line[:2000]})
@@ -305,7 +326,7 @@ def run(ctx):
     ctx.extra['configs'] = ['prod', 'san']
     ctx.assumptions = ['library group equality used to compare objects', 'oracle/bls.py for layout and for constructing invalid elements']
     need = ['slot-index|bits16', 'slot-index|bits32', 'roundtrip:wsk|c/l9/sig1/free9', 'roundtrip:wparams|c/l0', 'roundtrip:wsk|c/l0', 'roundtrip:wsk|u/l9', 'roundtrip:wparams|u/l9', 'roundtrip:wct|', 'roundtrip:wsig|', 'roundtrip:wmaster|', 'roundtrip:lparams|', 'roundtrip:lid|',
-            'roundtrip:lmaster|', 'roundtrip:lsk|', 'roundtrip:lct|', 'corrupt:wparams|not-in-subgroup', 'corrupt:wsk|off-curve', 'corrupt:wct|', 'corrupt:lct|', 'corrupt:wsig|wrong-form', 'reused-destination:wparams|c/retry-after-rejection', 'reused-destination:wsk|c/retry-after-rejection', 'reused-destination:wparams|u/retry-after-rejection', 'reused-destination:wct|']
+            'roundtrip:lmaster|', 'roundtrip:lsk|', 'roundtrip:lct|', 'corrupt:wparams|not-in-subgroup', 'corrupt:wsk|off-curve', 'corrupt:wct|', 'corrupt:lct|', 'corrupt:wsig|wrong-form', 'corrupt:wparams|identity+sort-bit', 'corrupt:wsk|identity+sort-bit', 'corrupt:wparams|valid:identity-element', 'reused-destination:wparams|c/retry-after-rejection', 'reused-destination:wsk|c/retry-after-rejection', 'reused-destination:wparams|u/retry-after-rejection', 'reused-destination:wct|']
     for r in need:
         if not any(k.startswith(r) for k in ctx.classes):
             ctx.required_classes.add(r)
